@@ -194,8 +194,11 @@ def run(prog, R):
         swaps = [bi for bi, t in ana.calls() if (ana.callee_of(t) or "").endswith(("mem::swap", "mem::take", "mem::replace"))]
         okr = len(reps) == 2 and len(swaps) == 2 and reps[0] in dom[reps[1]] and all(reps[1] in dom[e] for e in ana.exits())
         R.ob("C18.2-per-file-error-lists", "the error list is swapped in at entry and swapped back before every return", okr, ana.at, f"mem::replace call blocks {reps}; all swap/take/replace call blocks {swaps} (exactly the entry/exit pair may exchange the error list)")
-        el = any(c[0].endswith("SemanticErrorList::new") and "file_path" in show(c[1][0]) for p in ps for c in p.calls)
-        R.ob("C18.2-per-file-error-lists", "the list for an included file is created with that file's path", el, ana.at, "")
+        els = {show(c[1][0]) for p in ps for c in p.calls if c[0].endswith("SemanticErrorList::new")}
+        # the path is read from the item the analyser has just taken from included_iter (not from the including file)
+        el = bool(els) and all("file_path(" in e and "next(" in e and "file_path(parsed_source" not in e and "file_path(arg" not in e for e in els)
+        R.ob("C18.2-per-file-error-lists", "the list for an included file is created with that file's path", el, ana.at, f"SemanticErrorList::new arguments on all paths: {sorted(els)[:3]}" if el else
+             f"an error list for an included file is created with {sorted(els)[:2]}: not the path of the file taken from included_iter, so its diagnostics are attributed to (and rendered against the text of) another file")
         pe = any(c[0].endswith("Context::push_errors_from_included_file") for p in ps for c in p.calls)
         R.ob("C18.2-per-file-error-lists", "included diagnostics are kept in the parent's include list", pe, ana.at, "")
         # C18.5 stdgates without a file
